@@ -750,6 +750,16 @@ impl<'a, 'b, 'ast> Visit<'ast> for Rewriter<'a, 'b> {
                         }
                     }
                 }
+                if self.fx.ops && (name == "unwrap" || name == "expect") {
+                    // CL03: unwrap()/expect() failing is a panic, which the properties count as a refusal
+                    let (lo, hi) = self.fx.rng(mc.method.span());
+                    self.edit(lo, hi, format!("{}_refuse", name), "R5");
+                }
+                if self.fx.ops && name == "to_owned" && mc.args.is_empty() {
+                    // ToOwned for T: Clone is `clone` (D)
+                    let (lo, hi) = self.fx.rng(mc.method.span());
+                    self.edit(lo, hi, "clone".to_string(), "R9");
+                }
                 if name == "try_into" && mc.args.is_empty() {
                     let (lo, hi) = self.fx.rng(mc.method.span());
                     self.edit(lo, hi, "try_into_arr".to_string(), "R12");
@@ -985,6 +995,9 @@ impl<'a, 'b> Rewriter<'a, 'b> {
         let (lo, hi) = self.fx.rng(mac.span());
         let args: Option<Punctuated<Expr, Token![,]>> = mac.parse_body_with(Punctuated::parse_terminated).ok();
         match name.as_str() {
+            // CL03 (ops mode): the properties count a refusal by panic as "not verifying" / "not signing", so a
+            // panic is an allowed divergence there (vrefuse: no obligation, never returns); BBS: reaching it is an obligation
+            "panic" if self.fx.ops => self.edit(lo, hi, "vrefuse()".to_string(), "R5"),
             "panic" | "unimplemented" | "todo" | "unreachable" => self.edit(lo, hi, "vpanic()".to_string(), "R5"),
             "assert" | "debug_assert" => match args.as_ref().and_then(|a| a.first()) {
                 Some(c) => {
